@@ -16,10 +16,12 @@ import (
 	"encoding/json"
 	"fmt"
 	"runtime"
+	"sort"
 	"strings"
 	"sync"
 	"sync/atomic"
 	"time"
+	"verif/internal/refmodel"
 
 	"go.sia.tech/core/consensus"
 	"go.sia.tech/core/types"
@@ -860,7 +862,9 @@ func collect(b *harness.B, fam string, idx int, blocks int, each func(c *chainge
 	}
 	stalled := 0
 	for done := 0; done < blocks && stalled < 20; {
-		n := c.Grow(1+rng.IntN(10), chaingen.Plan{MaxTxns: 6})
+		// contracts and their proofs are emphasised: several proofs in one block (and in one transaction) are the
+		// shapes in which validation handles slices of the caller's block
+		n := c.Grow(1+rng.IntN(10), chaingen.Plan{MaxTxns: 6, Weights: map[string]int{"v1-form": 4, "v1-proof": 8, "v2-form": 3, "v2-proof": 5}})
 		done += n
 		if n == 0 {
 			stalled++ // nothing is accepted any more (reported by the caller's comparison)
@@ -913,11 +917,85 @@ func clockIndependence(b *harness.B, fam string, idx int, past *chaingen.Chain) 
 	}
 }
 
+// multiProofSample: one v1 transaction carrying the storage proofs of several contracts, in ascending, descending and
+// shuffled order of contract ID - the shape in which validation works on a slice of the caller's block. Each block
+// goes through the purity, provenance and copy monitors like any sampled block.
+func multiProofSample(b *harness.B) {
+	rng := b.SubRng("multi-proof")
+	net := chaingen.GenNet(rng, "v1only", 7000+b.Batch)
+	c := chaingen.NewChain(net, rng)
+	for c.Height() < net.N.HardforkStorageProof.Height+1 {
+		if c.Grow(1, chaingen.Plan{MaxTxns: 4, Only: []string{"v1-pay"}}) == 0 {
+			return
+		}
+	}
+	H := c.Height()
+	var specs []chaingen.V1ContractSpec
+	datas := [][]byte{bytes.Repeat([]byte{0xA1}, 128), bytes.Repeat([]byte{0xB2}, 36), bytes.Repeat([]byte{0xC3}, 200), bytes.Repeat([]byte{0xD4}, 64)}
+	for _, d := range datas {
+		specs = append(specs, chaingen.V1ContractSpec{Data: d, WindowStart: H + 2, WindowEnd: H + 6})
+	}
+	blk, bs, ids, err := c.BlockWithV1Contracts(specs)
+	if err != nil || c.Offer(blk, bs, []string{"form"}) != nil {
+		b.Inconclusive("multi-proof sample: formation block not accepted")
+		return
+	}
+	windowID, _ := c.BlockIDAt(H + 1)
+	cs := c.Tip()
+	type pr struct {
+		id types.FileContractID
+		sp types.StorageProof
+	}
+	var proofs []pr
+	for i, id := range ids {
+		if id == (types.FileContractID{}) {
+			continue
+		}
+		d := datas[i]
+		idx := cs.StorageProofLeafIndex(uint64(len(d)), windowID, id)
+		sp := types.StorageProof{ParentID: id, Leaf: refmodel.FileSegment(d, int(idx))}
+		for _, h := range refmodel.Proof(refmodel.FileLeaves(d), int(idx)) {
+			sp.Proof = append(sp.Proof, types.Hash256(h))
+		}
+		proofs = append(proofs, pr{id, sp})
+	}
+	if len(proofs) < 2 {
+		b.Inconclusive("multi-proof sample: fewer than two contracts funded")
+		return
+	}
+	orders := map[string]func(i, j int) bool{
+		"ascending-contract-id":  func(i, j int) bool { return bytes.Compare(proofs[i].id[:], proofs[j].id[:]) < 0 },
+		"descending-contract-id": func(i, j int) bool { return bytes.Compare(proofs[i].id[:], proofs[j].id[:]) > 0 },
+	}
+	for name, less := range orders {
+		sort.Slice(proofs, less)
+		txn := types.Transaction{}
+		for _, p := range proofs {
+			txn.StorageProofs = append(txn.StorageProofs, p.sp)
+		}
+		pb, pbs, err := c.BlockWith([]types.Transaction{txn}, nil)
+		if err != nil {
+			continue
+		}
+		s := sample{cs: cs, b: pb, bs: pbs, valid: consensus.ValidateBlock(cs, chaingen.CloneBlock(pb), pbs) == nil, kinds: []string{"v1-proofs-sharing-a-txn/" + name}}
+		b.Count("multi_proof_transactions_sampled", 1)
+		b.Count(fmt.Sprintf("observed:multi-proof-block-accepted=%v", s.valid), 1)
+		purity(b, c, s)
+		provenance(b, c, s)
+		if s.valid {
+			copies(b, c, s)
+		}
+	}
+}
+
 func run(b *harness.B) {
 	race := b.Batch%4 == 3
 	if b.Batch == 0 {
 		policyProvenance(b)
 		ancestorProvenance(b)
+	}
+	if b.Batch <= 1 {
+		multiProofSample(b)
 	}
 	nNets := b.Pick(2, 6)
 	for i := 0; i < nNets; i++ {
